@@ -11,7 +11,8 @@ CONSTANTS Kind,        \* "MultiDict" | "ImmutableMultiDict" | "Headers" | "Head
           Keys,        \* set of keys / names / items (code point sequences)
           Vals,        \* set of values
           MaxList,     \* longest value list / argument list
-          MaxEnt       \* most entries (Headers lines, HeaderSet items, MultiDict keys)
+          MaxEnt,      \* most entries (Headers lines, HeaderSet items, MultiDict keys)
+          SrcMode      \* "full" | "small": how many update / extend / constructor arguments
 VARIABLES obj, act
 vars == <<obj, act>>
 View == obj
@@ -22,10 +23,13 @@ OA(name, a) == [name |-> name, a |-> a]
 
 ValLists == SeqsUpTo(Vals, MaxList)
 Idxs == (0 - (MaxEnt + 1))..MaxEnt
+V0 == CHOOSE v \in Vals : TRUE
 PairSrcs == {<<>>} \cup {<< <<k, <<v>>>> >> : k \in Keys, v \in Vals}
-            \cup {<< <<k1, <<v1>>>>, <<k2, <<v2>>>> >> : k1 \in Keys, k2 \in Keys, v1 \in Vals, v2 \in Vals}
+            \cup {<< <<k1, <<v1>>>>, <<k2, <<v2>>>> >> : k1 \in Keys, k2 \in Keys, v1 \in Vals,
+                                                      v2 \in IF SrcMode = "small" THEN Vals \ {V0} ELSE Vals}
 ListSrcs == {<< <<k, vs>> >> : k \in Keys, vs \in ValLists}
-            \cup {s \in {<< <<k1, vs1>>, <<k2, vs2>> >> : k1 \in Keys, k2 \in Keys, vs1 \in ValLists, vs2 \in {<<>>} \cup {<<v>> : v \in Vals}} : s[1][1] # s[2][1]}
+            \cup IF SrcMode = "small" THEN {}
+                 ELSE {s \in {<< <<k1, vs1>>, <<k2, vs2>> >> : k1 \in Keys, k2 \in Keys, vs1 \in ValLists, vs2 \in {<<>>} \cup {<<v>> : v \in Vals}} : s[1][1] # s[2][1]}
 SrcArgs == {[A0 EXCEPT !.src = s, !.form = "pairs"] : s \in PairSrcs}
            \cup {[A0 EXCEPT !.src = s, !.form = "dictlist"] : s \in ListSrcs}
 HdSrcArgs == SrcArgs \cup {[A0 EXCEPT !.src = s, !.form = "headers"] : s \in PairSrcs}
